@@ -17,8 +17,8 @@
 
   Proved: the third conjunct in full (`validated_full`, `validated_table`); the second in full
   (`idempotent`, every converter of the regenerated table); the first for every occurrence outside
-  the two (converter, datatype) cells of `knownCells` (`binding_compatible`), each with a proved
-  counter-example (`finding_*`).
+  the one (converter, datatype) cell of `knownCells` (`binding_compatible`), which has a proved
+  counter-example (`finding_qname_unprefixed`).
 
   `Lex` is the set of *canonical* lexical forms of a datatype (no insignificant outer white space
   for token-typed values); for XSD built-in types without a modelled grammar it is an upper bound
@@ -359,6 +359,48 @@ theorem pattern_language_incl_rev (s : Str) :
     accepts AttrConv.pat_language s = true → accepts xsdLanguage s = true :=
   inclB_sound (by decide +kernel) s
 
+/-- XML white space (the separators of a RELAX-NG / XSD list) -/
+def xmlSpace : RE := .cls false [(32, 32), (9, 9), (10, 10), (13, 13)]
+
+/-- the lexical space of `xsd:integer`: an optional sign and digits -/
+def xsdInteger : RE := .seq (RE.opt (.cls false [(43, 43), (45, 45)])) (RE.plus (.cls false [(48, 57)]))
+
+/-- lexical space of the XSD built-in types that occur as list items (others: not refined) -/
+def xsdItemRE : XsdTy → Option RE
+  | .integer => some xsdInteger
+  | _ => none
+
+/-- `n` items separated by runs of XML white space (canonical: no white space before the first / after the last item) -/
+def listRE (item : RE) : Nat → RE
+  | 0 => .eps
+  | n + 1 => .seq item (RE.rep n n (.seq (RE.plus xmlSpace) item))
+
+/-- **pattern_incl (view box)**: every list of four `xsd:integer` is accepted by `cnv_viewbox`'s regex -/
+theorem pattern_incl_viewbox (s : Str) :
+    accepts (listRE xsdInteger 4) s = true → accepts AttrConv.pat_viewbox s = true :=
+  inclB_sound (by decide +kernel) s
+
+/-- an NCName by the productions of XML 1.0 (5th edition) / Namespaces in XML: NameStartChar and NameChar without ':' -/
+def ncNameStart : List (Nat × Nat) :=
+  [(65, 90), (95, 95), (97, 122), (0xC0, 0xD6), (0xD8, 0xF6), (0xF8, 0x2FF), (0x370, 0x37D), (0x37F, 0x1FFF),
+   (0x200C, 0x200D), (0x2070, 0x218F), (0x2C00, 0x2FEF), (0x3001, 0xD7FF), (0xF900, 0xFDCF), (0xFDF0, 0xFFFD),
+   (0x10000, 0xEFFFF)]
+def xmlNCName : RE :=
+  .seq (.cls false ncNameStart)
+    (.star (.cls false (ncNameStart ++ [(45, 45), (46, 46), (48, 57), (0xB7, 0xB7), (0x300, 0x36F), (0x203F, 0x2040)])))
+
+/-- a prefixed `xsd:QName` -/
+def prefixedQName : RE := .seq xmlNCName (.seq (RE.chr 58) xmlNCName)
+
+/-- **pattern_incl (namespaced token)**: every *prefixed* QName, with any XML name characters, is accepted by
+    `cnv_namespacedToken`'s regex, and nothing else is (the unprefixed half of `xsd:QName` is KF-C15-6) -/
+theorem pattern_incl_prefixedQName (s : Str) :
+    accepts prefixedQName s = true → accepts AttrConv.pat_namespacedToken s = true :=
+  inclB_sound (by decide +kernel) s
+theorem pattern_incl_prefixedQName_rev (s : Str) :
+    accepts AttrConv.pat_namespacedToken s = true → accepts prefixedQName s = true :=
+  inclB_sound (by decide +kernel) s
+
 /-! ## 5. Datatypes of the schema and compatibility of a converter with a datatype -/
 
 def noColonBlank (s : Str) : Bool := s.all fun c => c != 58 && c != 32
@@ -386,6 +428,10 @@ def atomLex : Atom → Str → Bool
   | .val v, s => s == v
   | .data ty pat, s => xsdUB ty s && patUB ty pat s
   | .list, _ => true
+  | .listN ty n, s =>
+    match xsdItemRE ty with
+    | some it => accepts (listRE it n) s
+    | none => true
   | .text, _ => true
   | .empty, s => s == []
 
@@ -423,11 +469,21 @@ def isIdentity : Kind → Bool
   | .identity => true
   | _ => false
 
+def listCompatB : Kind → XsdTy → Nat → Bool
+  | .identity, _, _ => true
+  | .pattern m r, ty, n =>
+    m == .full &&
+    match xsdItemRE ty with
+    | some it => inclB (listRE it n) r
+    | none => false
+  | _, _, _ => false
+
 def atomCompatB (K : Kind) : Atom → Bool
   | .val v => isOk (cnvK K v) v
   | .empty => isOk (cnvK K []) []
   | .data ty pat => dataCompatB K ty pat
   | .list => isIdentity K
+  | .listN ty n => listCompatB K ty n
   | .text => isIdentity K
 
 /-- the decidable compatibility relation evaluated over the tables -/
@@ -506,6 +562,28 @@ theorem isIdentity_spec {K : Kind} (h : isIdentity K = true) (s : Str) : cnvK K 
   cases K <;> simp [isIdentity] at h
   simp [cnvK]
 
+theorem listCompat_sound (K : Kind) {ty : XsdTy} {n : Nat} (h : listCompatB K ty n = true) (s : Str)
+    (hl : atomLex (.listN ty n) s = true) : cnvK K s = .ok s := by
+  cases K with
+  | identity => simp [cnvK]
+  | pattern m r =>
+    simp only [listCompatB, Bool.and_eq_true, beq_iff_eq] at h
+    obtain ⟨hm, h⟩ := h
+    subst hm
+    simp only [atomLex] at hl
+    cases hit : xsdItemRE ty with
+    | none => simp [hit] at h
+    | some it =>
+      simp only [hit] at h hl
+      have hacc := inclB_sound h s hl
+      simp [cnvK, matchMode, hacc]
+  | enum v => simp [listCompatB] at h
+  | ciMap c => simp [listCompatB] at h
+  | hexEscape c => simp [listCompatB] at h
+  | joinChars c => simp [listCompatB] at h
+  | firstOf a b => simp [listCompatB] at h
+  | unknown => simp [listCompatB] at h
+
 theorem atomCompat_sound (K : Kind) (a : Atom) (h : atomCompatB K a = true) (s : Str)
     (hl : atomLex a s = true) : cnvK K s = .ok s := by
   cases a with
@@ -519,6 +597,7 @@ theorem atomCompat_sound (K : Kind) (a : Atom) (h : atomCompatB K a = true) (s :
     exact isOk_spec (by simpa [atomCompatB] using h)
   | data ty pat => exact dataCompat_sound K (by simpa [atomCompatB] using h) s (by simpa [atomLex] using hl)
   | list => exact isIdentity_spec (by simpa [atomCompatB] using h) s
+  | listN ty n => exact listCompat_sound K (by simpa [atomCompatB] using h) s hl
   | text => exact isIdentity_spec (by simpa [atomCompatB] using h) s
 
 /-- one proved lemma covers every (converter shape, datatype atom) pair: `CompatB` is sound -/
@@ -540,10 +619,9 @@ def dtOf (i : Nat) : DT :=
     datatype.  Each is a defect of the unchanged tree recorded in known-findings/C15.txt and shown by a
     proved counter-example below; any other incompatible cell breaks `cells_ok`. -/
 def knownCells : List (Nat × DT) := [
-  -- KF-C15-6  namespacedToken = xsd:QName (prefix optional, any NCName characters); code wants ASCII prefix:local
-  (AttrConv.c_cnv_namespacedToken, [.data .QName none]),
-  -- KF-C15-7  svg:viewBox = list of four xsd:integer (sign '+', any XML white space); code wants -?digits and blanks
-  (AttrConv.c_cnv_viewbox, [.list])
+  -- KF-C15-6  namespacedToken = xsd:QName, whose prefix is optional; the code requires `prefix:local`
+  --           (an unprefixed value being refused is pinned by tests/testchart.py::testChart)
+  (AttrConv.c_cnv_namespacedToken, [.data .QName none])
 ]
 
 def knownCell (c : Nat × Nat) : Bool := knownCells.any fun k => k.1 == c.1 && k.2 == dtOf c.2
@@ -623,8 +701,8 @@ theorem kind_identity_of_lt {i : Nat} (h : i < AttrConv.nIdentity) : isIdentity 
 
 /-- **C15 (binding_compatible)**: for every attribute occurrence `(element, attribute, datatype)` of the
     shipped schema, the converter that `AttrConverters.convert` selects for `(attribute, element)` accepts
-    every lexical value of the datatype and returns it unchanged — or the (converter, datatype) cell is one
-    of the two recorded findings. -/
+    every lexical value of the datatype and returns it unchanged — or the (converter, datatype) cell is
+    the recorded finding KF-C15-6. -/
 theorem binding_compatible :
     ∀ t ∈ AttrTable.attrTable, ∀ o ∈ t.2.2,
       Compatible (kindOf (convertIdx AttrTable.bindings t.1 o.1)) (dtOf o.2) ∨
@@ -657,8 +735,5 @@ example : ∃ t ∈ AttrTable.attrTable, ∃ o ∈ t.2.2,
 /-- KF-C15-6: an unprefixed QName -/
 theorem finding_qname_unprefixed :
     cnv AttrConv.c_cnv_namespacedToken (lit "bar") = .error .valueError := by decide +kernel
-/-- KF-C15-7: a view box written with an explicit plus sign -/
-theorem finding_viewbox_plus :
-    cnv AttrConv.c_cnv_viewbox (lit "+0 0 10 10") = .error .valueError := by decide +kernel
 
 end OdfModel.Props.C15
